@@ -533,28 +533,37 @@ std::string Result::dump_all() const {
     return s;
 }
 std::string Result::projection(int tx, int dir) const {
-    // data callbacks of each kind are concatenated between two non-data callbacks (several data hooks may fire per
-    // delivered piece, e.g. body data and file data); end-of-data markers are kept once
-    std::string out; std::vector<std::pair<int, std::string>> acc; std::vector<int> markers;
+    // Between two non-data callbacks every data hook has its own stream: payloads are concatenated, an end-of-data
+    // marker is kept in place inside that stream. Streams of different hooks are independent (file data callbacks
+    // fire from inside body data processing, so their interleaving with body data callbacks follows the chunking).
+    std::vector<std::string> filetok;
+    std::string out; std::vector<std::pair<int, std::vector<std::string>>> acc; // hook -> tokens; a token is data (raw) or "\1end"
     auto flush = [&]() {
-        for (auto &a : acc) if (!a.second.empty()) out += std::string(hook_name(a.first)) + "[" + vc::hex(a.second) + "]|";
-        for (int m : markers) out += std::string(hook_name(m)) + "(end)|";
-        acc.clear(); markers.clear();
+        std::sort(acc.begin(), acc.end(), [](const std::pair<int, std::vector<std::string>> &x, const std::pair<int, std::vector<std::string>> &y) { return x.first < y.first; });
+        for (auto &a : acc) { std::string t; for (auto &tok : a.second) t += tok == "\1end" ? std::string("(end)") : "[" + vc::hex(tok) + "]"; if (!t.empty()) out += std::string(hook_name(a.first)) + t + "|"; }
+        acc.clear();
     };
     for (auto &e : events) {
         if (e.tx != tx || e.hook == H_LOG) continue;
         int d = is_req_hook(e.hook) ? 0 : is_res_hook(e.hook) ? 1 : 2;
         if (d != dir) continue;
+        if (e.hook == H_REQ_FILE) { // derived stream behind the multipart matcher's look-ahead: one stream per transaction, not ordered against other callbacks
+            if (e.null_data && e.len == 0) { if (filetok.empty() || filetok.back() != "\1end") filetok.push_back("\1end"); }
+            else if (!e.data.empty()) { if (!filetok.empty() && filetok.back() != "\1end") filetok.back() += e.data; else filetok.push_back(e.data); }
+            continue;
+        }
         if (is_data_hook(e.hook)) {
             bool marker = e.null_data && e.len == 0;
-            if (marker) { if (std::find(markers.begin(), markers.end(), e.hook) == markers.end()) markers.push_back(e.hook); continue; }
-            if (!markers.empty()) flush(); // data after a marker starts a new group
+            std::vector<std::string> *tk = nullptr; for (auto &a : acc) if (a.first == e.hook) tk = &a.second;
+            if (!tk) { acc.push_back({e.hook, {}}); tk = &acc.back().second; }
+            if (marker) { if (tk->empty() || tk->back() != "\1end") tk->push_back("\1end"); continue; }
             std::string piece = e.null_data ? std::string("<gap:") + std::to_string(e.len) + ">" : e.data;
-            bool found = false; for (auto &a : acc) if (a.first == e.hook) { a.second += piece; found = true; }
-            if (!found) acc.push_back({e.hook, piece});
+            if (piece.empty()) continue;
+            if (!tk->empty() && tk->back() != "\1end") tk->back() += piece; else tk->push_back(piece);
         } else { flush(); out += std::string(hook_name(e.hook)) + "|"; }
     }
     flush();
+    if (!filetok.empty()) { out += "FILEDATA:"; for (auto &tok : filetok) out += tok == "\1end" ? std::string("(end)") : "[" + vc::hex(tok) + "]"; }
     return out;
 }
 bool Result::has_violation(const std::string &prefix) const { for (auto &v : violations) if (v.rfind(prefix, 0) == 0) return true; return false; }
